@@ -367,3 +367,68 @@ Qed.
 Corollary same_erasure_same_model cx be fuel (s1 s2 : source) :
   erase_source s1 = erase_source s2 -> compile cx be fuel s1 = compile cx be fuel s2.
 Proof. intros H. rewrite <- (variants_equal_styles cx be fuel s1), H. apply variants_equal_styles. Qed.
+
+(* ------------------------------------------------------------------ *)
+(* declared names, kinds, descriptions, log status                     *)
+(* ------------------------------------------------------------------ *)
+Lemma qkind_eqb_eq a b : qkind_eqb a b = true <-> a = b.
+Proof. destruct a, b; simpl; split; intros H; try reflexivity; try discriminate. Qed.
+
+Lemma in_of_kind d k l : In d (of_kind k l) <-> In d l /\ d_kind d = k.
+Proof. unfold of_kind. rewrite filter_In, qkind_eqb_eq. reflexivity. Qed.
+
+Lemma in_by_kind d (order l : list qkind) (ds : list decl) :
+  In d (flat_map (fun k => of_kind k ds) order) <-> In d ds /\ In (d_kind d) order.
+Proof.
+  rewrite in_flat_map. split.
+  - intros [k [Hk Hd]]. apply in_of_kind in Hd. destruct Hd as [Hd <-]. auto.
+  - intros [Hd Hk]. exists (d_kind d). split; [exact Hk|]. apply in_of_kind. auto.
+Qed.
+
+(* Invariant.quantities = the declared quantities plus one ant_ quantity per transition shock and one std_
+   quantity per shock, each with its kind and description, nothing else *)
+Theorem quantities_exactly_declared (decls : list decl) (d : decl) :
+  In d (all_decls decls) <->
+     (In d decls /\ In (d_kind d) entry_order)
+  \/ (exists s, In s decls /\ d_kind s = QTransitionShock /\
+                d = mkDecl QAnticipatedShockValue (append ant_prefix (d_name s)) (append ant_descr_prefix (descr_or_name s)))
+  \/ (exists s, In s decls /\ d_kind s = QTransitionShock /\
+                d = mkDecl QTransitionStd (append std_prefix (d_name s)) (append std_descr_prefix (descr_or_name s)))
+  \/ (exists s, In s decls /\ d_kind s = QMeasurementShock /\
+                d = mkDecl QMeasurementStd (append std_prefix (d_name s)) (append std_descr_prefix (descr_or_name s))).
+Proof.
+  unfold all_decls.
+  set (entered := flat_map (fun k => of_kind k decls) entry_order).
+  assert (Hent : forall x, In x entered <-> In x decls /\ In (d_kind x) entry_order)
+    by (intros x; apply (in_by_kind x entry_order entry_order decls)).
+  assert (Hall : forall k, In k kind_order) by (intros k; destruct k; simpl; tauto).
+  rewrite (in_by_kind d kind_order kind_order).
+  rewrite !in_app_iff, !in_map_iff.
+  assert (Hsh : forall k x, In k entry_order -> (In x (of_kind k entered) <-> In x decls /\ d_kind x = k)).
+  { intros k x Hk. rewrite in_of_kind, Hent. split; [intros [[H1 _] H2]; auto | intros [H1 H2]; subst; auto]. }
+  assert (Ht : In QTransitionShock entry_order) by (simpl; tauto).
+  assert (Hm : In QMeasurementShock entry_order) by (simpl; tauto).
+  split.
+  - intros [[H|[H|[H|H]]] _].
+    + left. apply Hent. exact H.
+    + right; left. destruct H as [s [<- Hs]]. apply (Hsh _ _ Ht) in Hs. exists s. tauto.
+    + right; right; left. destruct H as [s [<- Hs]]. apply (Hsh _ _ Ht) in Hs. exists s. tauto.
+    + right; right; right. destruct H as [s [<- Hs]]. apply (Hsh _ _ Hm) in Hs. exists s. tauto.
+  - intros H. split; [|apply Hall].
+    destruct H as [H|[[s [H1 [H2 ->]]]|[[s [H1 [H2 ->]]]|[s [H1 [H2 ->]]]]]].
+    + left. apply Hent. exact H.
+    + right; left. exists s. split; [reflexivity|]. apply (Hsh _ _ Ht). auto.
+    + right; right; left. exists s. split; [reflexivity|]. apply (Hsh _ _ Ht). auto.
+    + right; right; right. exists s. split; [reflexivity|]. apply (Hsh _ _ Hm). auto.
+Qed.
+
+(* _populate_logly: a loggable variable is a log variable iff it is listed (without !all-but) or not
+   listed (with !all-but); other kinds have no log status *)
+Theorem log_status_spec (allbut : bool) (logs : list string) (d : decl) :
+  logly_of allbut logs d =
+    if mem_kind (d_kind d) [QTransitionVariable; QMeasurementVariable; QExogenousVariable]
+    then Some (xorb allbut (mem_s (d_name d) logs)) else None.
+Proof.
+  unfold logly_of. change loggable_kinds with [QTransitionVariable; QMeasurementVariable; QExogenousVariable].
+  destruct (mem_kind _ _); [|reflexivity]. destruct (mem_s _ _), allbut; reflexivity.
+Qed.
